@@ -90,6 +90,47 @@ def run(c):
             c.report("rich document %s (text variant %s): repeating serialise/parse/calculate changes it at %s (round %s)" % (name, mode, v[0][2].decode(), v[0][1]),
                      {"rich_document": name, "variant": mode, "result": r, "rerun": "bin/vharness c14rich work/c14rich",
                       "clause": "calculate -> serialise -> parse -> calculate yields byte-identical JSON (normalisers are idempotent)"})
+    # ---- defaults: every example input and rich document with ONE optional member removed (top level and one level below):
+    # whatever calculation fills in for the missing member must already be there after the first calculation
+    dl, dn = [], []
+    srcs = []
+    for path, data in exs:
+        if "/out/" in path:
+            continue
+        try:
+            srcs.append((path, json.loads(data)))
+        except ValueError:
+            pass                        # yaml inputs are covered through their json twins under out/
+    for f in sorted(_glob.glob(os.path.join(rich, "rich-bill-*.json"))):
+        srcs.append((os.path.basename(f), json.load(open(f))))
+    seen_del = set()
+    for name, d in srcs:
+        body = d.get("doc") if isinstance(d.get("doc"), dict) and "$schema" in d.get("doc", {}) else d
+        if not isinstance(body, dict):
+            continue
+        sch = body.get("$schema", "")
+        cands = [(k,) for k in body if not k.startswith("$")]
+        cands += [(k, k2) for k in body if isinstance(body[k], dict) for k2 in body[k]]
+        for cpath in cands:
+            key = (sch, tuple(body.get("$addons") or ()), cpath)
+            if quick and key in seen_del:
+                continue
+            seen_del.add(key)
+            b2 = json.loads(json.dumps(body))
+            t = b2
+            for k in cpath[:-1]:
+                t = t[k]
+            del t[cpath[-1]]
+            dl.append("c04 fix " + w(json.dumps(b2)))
+            dn.append((name, "/".join(cpath)))
+    for (name, cpath), r in zip(dn, run_go(dl)):
+        v = parse_wire(r)
+        c.count("defaults-fixpoint", 1, (name, cpath))
+        if v and isinstance(v[0], list) and v[0] and v[0][0] == b"diff" and shown < 9:
+            shown += 1
+            c.report("%s without its member %s: repeating serialise/parse/calculate changes the document at %s (round %s)" % (name, cpath, v[0][2].decode(), v[0][1]),
+                     {"source": name, "removed_member": cpath, "result": r,
+                      "clause": "calculate -> serialise -> parse -> calculate yields byte-identical JSON (defaults are applied before they are read)"})
     outs = [(p, d) for p, d in exs if "/out/" in p]
     res = run_go(["c04 readonly " + w(d) for _, d in outs])
     for (path, data), r in zip(outs, res):
